@@ -20,7 +20,46 @@ def parseSuffix : String → Option Suffix
 def parseCls : String → Option Cls
   | "Image" => some .image | "ScalarImage" => some .scalarImage | "OpticalImage" => some .opticalImage | _ => none
 
+/-- symbolic values: which keyword (if any) an attribute of a constructed image comes from -/
+inductive Sym | kw (k : Key) | c (name : String) | app (f : String) (args : List Sym)
+
+def isC (n : String) : Sym → Bool | .c m => m == n | _ => false
+
+def symSem : Sem Sym :=
+  { none := .c "None", two := .c "2", ij := .c "ij", tru := .c "True", fls := .c "False", rgb := .c "RGB",
+    isNone := isC "None", truthy := isC "True",
+    up := fun v => match v with | .kw k => .kw k | v => .app "upper" [v],
+    defaultIndexing := fun d => .app "ijk" [d], defaultDims := fun d => .app "ones" [d],
+    applyHWD := fun d h w z => match h, w, z with | none, none, none => d | _, _, _ => .app "hwd" [d],
+    defaultOrigin := fun a b c => .app "origin" [a, b, c], defaultDate := fun s => .app "nodate" [s],
+    defaultRef := fun d => .app "ref" [d], deriveTime := fun s d r => .app "time" [s, d, r] }
+
+def parseKey : String → Option Key
+  | "space_dim" => some .space_dim | "indexing" => some .indexing | "dimensions" => some .dimensions
+  | "name" => some .name | "height" => some .height | "width" => some .width | "depth" => some .depth
+  | "origin" => some .origin | "series" => some .series | "date" => some .date
+  | "reference_date" => some .reference_date | "time" => some .time | "scalar" => some .scalar
+  | "color_space" => some .color_space | _ => none
+
+def showKey : Key → String
+  | .space_dim => "space_dim" | .indexing => "indexing" | .dimensions => "dimensions" | .name => "name"
+  | .height => "height" | .width => "width" | .depth => "depth" | .origin => "origin" | .series => "series"
+  | .date => "date" | .reference_date => "reference_date" | .time => "time" | .scalar => "scalar"
+  | .color_space => "color_space" | .other n => s!"other{n}"
+
+/-- `construct <Class> key*` : for every `metadata()` key of the class, does the attribute of
+`Class(array, **{key: sentinel})` carry the sentinel given for that key? -/
+def handleConstruct (c : Cls) (given : List Key) : String :=
+  let kw : Kw Sym := fun k => if given.contains k then some (.kw k) else none
+  let a := construct symSem c kw
+  " ".intercalate ((Gen.metaKeys c).map fun k =>
+    showKey k ++ "=" ++ (match a k with | .kw k' => (if k' == k then "kw" else "other") | _ => "other"))
+
 def dispatch : List String → Option String
+  | "construct" :: c :: ks => do
+    let c ← parseCls c
+    let ks ← ks.mapM parseKey
+    pure (handleConstruct c ks)
   | ["kind", "gray"] => some (showE Cls.show (kindRule .gray))
   | ["kind", "chan", n] => n.toNat?.map fun n => showE Cls.show (kindRule (.chan n))
   | ["perm", which, a, b, c] => do
